@@ -161,6 +161,9 @@ def show(a, ty, nl_alt=False, gnu_ops=False, spell=None):
             return None
         if ty == "emacs":
             return None          # GNU's emacs syntax has no interval operator
+        if gnu_ops and x[1] == 0:
+            # GNU's spelling of a missing lower bound
+            return s + (("{,%d}" if ext else "\\{,%d\\}") % x[2])
         return s + (("{%d,%d}" if ext else "\\{%d,%d\\}") % (x[1], x[2]))
     return go(a)
 
@@ -332,6 +335,8 @@ def known(ctx, forest):
               # "[.x.]" and "[=x=]" in a bracket expression are the character they name; emacs has no classes, also for where a group stands
               ("grep", b"gr/\\(\\{2\\}\\)x\\{0,1\\}", [b"gr/{2}", b"gr/{2}x"]), ("grep", b"gr/aa\\|\\{2\\}", [b"gr/aa"]), ("grep", b"gr/\\(^\\{2\\}\\)", []),
               ("grep", b"gr/x\\{2\\}", [b"gr/xx"]), ("grep", b"gr/\\(\\{2,1\\}\\)", [b"gr/{2,1}"]),
+              ("posix-extended", b"gr/a{,2}b{,1}a?0{,}", [b"gr/aa", b"gr/aba", b"gr/aa0"]), ("grep", b"gr/a\\{,2\\}b\\{,\\}", [b"gr/aa", b"gr/abb"]), ("sed", b"gr/x\\{,2\\}", [b"gr/xx"]),
+              ("posix-extended", b"gr/x[{,]2}", [b"gr/x{2}"]), ("emacs", b"gr/a\\{,2\\}", []),
               ("posix-basic", b"gr/a\\+", [b"gr/aa"]), ("sed", b"gr/ab\\?b\\+", [b"gr/abb"]), ("ed", b"gr/a\\+b*a\\?0\\?", [b"gr/aa", b"gr/aba", b"gr/aa0", b"gr/abb"]),
               ("posix-basic", b"gr/\\(\\+\\|x\\)\\+", [b"gr/xx", b"gr/x+"]), ("posix-basic", b"gr/x[+]\\|gr/x\\\\+", [b"gr/x+"]),
               ("posix-extended", b"gr/[[=a=]]+", [b"gr/aa"]), ("emacs", b"gr/x[[.$.]~]", [b"gr/x$", b"gr/x~"]), ("grep", b"gr/x[^[=3=][.t.]x]", [b"gr/x$", b"gr/x+", b"gr/x~", b"gr/x.", b"gr/x\xd9\xa3", b"gr/x\t"]),
@@ -415,7 +420,7 @@ def wrapper(ctx):
             pats.append("".join(tup))
     # the operators of the basic syntaxes (what is an operator depends on where it stands) and collating symbols: every pattern up to
     # length 3 over a second alphabet, and as pieces of the longer random ones
-    alpha2 = ["\\", "{", "}", "+", "?", "(", "|", "^", "*", "[", "]", ".", "=", "a", "\n", ":"]
+    alpha2 = ["\\", "{", "}", "+", "?", "(", "|", "^", "*", "[", "]", ".", "=", "a", "\n", ":", ","]
     for n in range(1, (4 if ctx.thorough else 3) + 1):
         for tup in itertools.product(alpha2, repeat=n):
             pats.append("".join(tup))
@@ -436,7 +441,7 @@ def wrapper(ctx):
                     pats.append("x[" + neg + body + "]" + tail)
     cases = [(p, e) for p in pats for e in ("emacs", "posix-basic", "posix-extended", "grep")]
     # the pieces the operator spelling of the basic syntaxes tells apart (anchors of both kinds among them), every sequence of up to four
-    btoks = ["a", "*", "\\+", "\\?", "\\(", "\\)", "\\|", "^", "$", "\\{1\\}", "\\{", "\\}", "[a\\{]", "\n", "\\`", "\\'"]
+    btoks = ["a", "*", "\\+", "\\?", "\\(", "\\)", "\\|", "^", "$", "\\{1\\}", "\\{", "\\}", "[a\\{]", "\n", "\\`", "\\'", "\\{,2\\}"]
     for n in range(1, (5 if ctx.thorough else 4) + 1):
         for tup in itertools.product(btoks, repeat=n):
             for e in ("grep", "posix-basic"):
